@@ -198,9 +198,9 @@ func optionsAlphabet(level string) []Op {
 		}
 	} else {
 		a = append(a,
-			Op{K: "SetBytes", ID: 11, V: "X"}, Op{K: "SetBytes", ID: 4, V: "L"}, Op{K: "SetBytes", ID: 2000, V: "M"},
+			Op{K: "SetBytes", ID: 11, V: "X"}, Op{K: "SetBytes", ID: 4, V: "L"},
 			Op{K: "AddBytes", ID: 11, V: "M"}, Op{K: "AddBytes", ID: 4, V: "E"}, Op{K: "AddBytes", ID: 2000, V: "L"},
-			Op{K: "SetString", ID: 8, V: "S"}, Op{K: "SetString", ID: 15, V: "L"},
+			Op{K: "SetString", ID: 15, V: "L"},
 			Op{K: "AddString", ID: 8, V: "E"}, Op{K: "AddString", ID: 11, V: "S"}, Op{K: "AddString", ID: 15, V: "M"},
 			Op{K: "SetUint32", ID: 12, U: 0}, Op{K: "SetUint32", ID: 2000, U: 0x100},
 			Op{K: "AddUint32", ID: 12, U: 0x100},
@@ -284,9 +284,9 @@ func poolAlphabet(level string) []Op {
 		}
 		a = append(a,
 			Op{K: "SetBytes", ID: 11, V: "X"}, Op{K: "SetBytes", ID: 4, V: "L"},
-			Op{K: "AddBytes", ID: 11, V: "M"}, Op{K: "AddBytes", ID: 2000, V: "L"}, Op{K: "AddBytes", ID: 15, V: "X"},
+			Op{K: "AddBytes", ID: 11, V: "M"}, Op{K: "AddBytes", ID: 2000, V: "L"},
 			Op{K: "SetString", ID: 11, V: "X"}, Op{K: "SetString", ID: 15, V: "L"},
-			Op{K: "AddString", ID: 8, V: "E"}, Op{K: "AddString", ID: 11, V: "S"}, Op{K: "AddString", ID: 4, V: "L"},
+			Op{K: "AddString", ID: 8, V: "E"}, Op{K: "AddString", ID: 11, V: "S"},
 			Op{K: "SetUint32", ID: 12, U: 0}, Op{K: "SetUint32", ID: 2000, U: 0x100},
 			Op{K: "AddUint32", ID: 12, U: 0x100},
 			Op{K: "SetContentFormat", U: 0xfff0}, Op{K: "SetObserve", U: 0xfffff0}, Op{K: "SetAccept", U: 50},
